@@ -362,6 +362,11 @@ fn main() {
             for nu in 0..=2 {
                 for nd in 0..=1 {
                     for mode in 0..4 {
+                        // "second caller after the first response" needs a round that is
+                        // still open after one response
+                        if mode == 3 && nt < 2 {
+                            continue;
+                        }
                         groups.push((nt, nu, nd, mode));
                     }
                 }
@@ -399,7 +404,7 @@ fn main() {
         &ctx,
         rep,
         Spec {
-            rule: "nT in 1..=4 (quick) / 1..=5 (thorough) connected trusted peers x nU in 0..=2 connected untrusted peers (first archival) x nD in 0..=1 disconnected trusted peers x caller mode {1 caller; 2nd caller before tick / after tick / after first response} x all 7^nT assignments of {A@10,A'@10,B@11,C@12,two-headers,invalid-header,failure} to the trusted peers x response orders (all nT! permutations for nT<=4 [quick, nT=4: only for (nU,nD,mode) in {(0,0,0),(2,1,1),(1,0,3)}, else the rotations of the identity and its reverse]; nT=5: rotations of identity and reverse); rounds without a valid report are followed by a second round answered B@11 by every peer; distinct = (nT,nU,nD,mode,assignment,order); non-trivial = at least two different valid reports, or one valid report mixed with unusable answers",
+            rule: "nT in 1..=4 (quick) / 1..=5 (thorough) connected trusted peers x nU in 0..=2 connected untrusted peers (first archival) x nD in 0..=1 disconnected trusted peers x caller mode {1 caller; 2nd caller before tick / after tick / after first response (nT>=2)} x all 7^nT assignments of {A@10,A'@10,B@11,C@12,two-headers,invalid-header,failure} to the trusted peers x response orders (all nT! permutations for nT<=4 [quick, nT=4: only for (nU,nD,mode) in {(0,0,0),(2,1,1),(1,0,3)}, else the rotations of the identity and its reverse]; nT=5: rotations of identity and reverse); rounds without a valid report are followed by a second round answered B@11 by every peer; distinct = (nT,nU,nD,mode,assignment,order); non-trivial = at least two different valid reports, or one valid report mixed with unusable answers",
             assumptions: &[
                 "header contents (keys, hashes) come from the repo's random ExtendedHeaderGenerator; the property depends only on height, hash equality and validity",
                 "which of several equally high, equally supported headers wins is not fixed by the statement: any of them is accepted",
